@@ -524,6 +524,32 @@ func derivesFromWrapper(v ssa.Value, d int) bool {
 }
 
 func c16(r *Report, s *Sem) {
+	defer func() {
+		p := r.P
+		R7 := r.Rule("R7", "the limit a listener or transport was created with is its own: TCPConfig is held by value in the TCP listener and transport (a retained pointer to the caller's configuration lets a later change of ReadLimit — e.g. for a second listener built from the same value — reach transports of the first)", 2)
+		cfgT := p.Type("TCPConfig")
+		n := 0
+		for _, tn := range []string{"tcpTransportListener", "tcpTransport"} {
+			nt := p.Type(tn)
+			if nt == nil || cfgT == nil {
+				r.Undecided(R7, "anchor-unresolved:"+tn+" / TCPConfig", "-", "not found")
+				continue
+			}
+			st, ok := nt.Underlying().(*types.Struct)
+			if !ok {
+				continue
+			}
+			n++
+			bad := ""
+			for i := 0; i < st.NumFields(); i++ {
+				if pt, isPtr := st.Field(i).Type().(*types.Pointer); isPtr && typeIs(pt.Elem(), cfgT) {
+					bad = "field " + st.Field(i).Name() + " is a *TCPConfig"
+				}
+			}
+			r.Check(R7, "type "+tn+" / holds its configuration by value", p.pos(nt.Obj().Pos()), bad == "", bad)
+		}
+		_ = n
+	}()
 	p := r.P
 	defer r.Import(s, "C12", "R5", "R6", "an envelope within the limit is accepted wherever it sits in the stream: once Decode succeeded under the per-envelope budget, Receive returns the converted envelope — no further size test (a decoder's stream offset is cumulative) may refuse it", 1, "a successful Decode")
 	R1 := r.Rule("R1", "the TCP transport's decoder is constructed only over the address of the transport's own io.LimitedReader, whose R derives from the polling wrapper (optionally through io.TeeReader)", 2)
